@@ -184,8 +184,8 @@ EXPORT char *_stpcpy_s_chk(char *restrict dest, rsize_t dmax,
             src++;
             /* sentinel srcbos -1 = ULONG_MAX */
             if (unlikely(slen >= srcbos)) {
-                invoke_safe_str_constraint_handler("stpcpy_s: src unterminated",
-                                                   (void *)src, ESUNTERM);
+                handle_error(orig_dest, orig_dmax, "stpcpy_s: src unterminated",
+                             ESUNTERM);
                 *errp = RCNEGATE(ESUNTERM);
                 return NULL;
             }
@@ -208,15 +208,9 @@ EXPORT char *_stpcpy_s_chk(char *restrict dest, rsize_t dmax,
               eok:
 #ifdef SAFECLIB_STR_NULL_SLACK
                 /* null slack to clear any data */
-                if (dmax > 0x20)
-                    memset(dest, 0, dmax);
-                else {
-                    while (dmax) {
-                        *dest = '\0';
-                        dmax--;
-                        dest++;
-                    }
-                }
+                memset(dest, 0, dmax);
+#else
+                *dest = '\0';
 #endif
                 *errp = RCNEGATE(EOK);
                 return dest;
@@ -227,8 +221,8 @@ EXPORT char *_stpcpy_s_chk(char *restrict dest, rsize_t dmax,
             dest++;
             src++;
             if (unlikely(slen >= srcbos)) {
-                invoke_safe_str_constraint_handler("stpcpy_s: src unterminated",
-                                                   (void *)src, ESUNTERM);
+                handle_error(orig_dest, orig_dmax, "stpcpy_s: src unterminated",
+                             ESUNTERM);
                 *errp = RCNEGATE(ESUNTERM);
                 return NULL;
             }
